@@ -21,7 +21,7 @@ def Code.consumesRoot : Code → Bool
   | .tuple _ _ body => body.consumesRoot      -- `match &V { (..) => .. }`: by reference
   | .closure _ v _ _ => v.isBareRoot          -- `check_closure_condition(V, c)`: V passed by value
   | .seq cs => cs.consumesRoot
-  | .enumTuple _ _ _ _ body _ | .structNamed _ _ _ _ _ body _ | .slice _ _ body _ => body.consumesRoot
+  | .enumTuple _ _ _ _ body _ | .structNamed _ _ _ _ _ _ body _ | .slice _ _ body _ => body.consumesRoot
   | .mapGet _ _ _ body _ => body.consumesRoot
   | .set _ preds _ _ => preds.consumesRoot
   | _ => false
